@@ -785,3 +785,61 @@ pub fn sudo_cells(w: &mut RWorld, rep: &mut Report) -> Vec<Fail> {
     }
     fails
 }
+
+
+/// Top-level batches (`execute_multi`): messages reach their modules in the given order, exactly once, up to and
+/// including the first one whose module fails; nothing after it is dispatched, the caller sees the failure and no
+/// state change survives.
+pub fn multi_cells(w: &mut RWorld, n0: u64, rep: &mut Report) -> Vec<Fail> {
+    let mut fails = vec![];
+    let kinds = [Kind::Staking, Kind::Distribution, Kind::Custom, Kind::Ibc, Kind::Gov, Kind::Stargate, Kind::Any, Kind::Bank, Kind::BankEmpty];
+    let to = w.puppets[2].clone();
+    let user = w.user.clone();
+    let mut n = n0;
+    for (i, &k1) in kinds.iter().enumerate() {
+        // three messages: k1, the next kind, the one after
+        let ks = [k1, kinds[(i + 1 + (n0 as usize % 3)) % kinds.len()], kinds[(i + 4) % kinds.len()]];
+        let msgs: Vec<CosmosMsg<PMsg>> = ks.iter().map(|k| { n += 1; make_msg(*k, n, &to) }).collect();
+        let failing: Vec<bool> = ks.iter().map(|k| (module_of(*k) != "bank" && w.hub.fails(module_of(*k))) || *k == Kind::BankEmpty).collect();
+        let first_fail = failing.iter().position(|f| *f);
+        let before = rawstate::dump(w.app.storage());
+        w.hub.log.borrow_mut().clear();
+        let res = catch(|| w.app.execute_multi(Addr::unchecked(user.clone()), msgs.clone()).map(|r| r.len()).map_err(|e| format!("{:#}", e)));
+        let log: Vec<LogEntry> = w.hub.log.borrow().clone();
+        rep.evaluations += 1;
+        rep.bump(&format!("c17/multi/{}", match first_fail { None => "all-accepted".to_string(), Some(p) => format!("message-{}-fails", p) }));
+        let ctx = format!("execute_multi {:?} (modules failing: {:?})", ks, failing);
+        let res = match res {
+            Ok(r) => r,
+            Err(p) => {
+                fails.push(("panic-routing-batch".into(), format!("{}: {}", ctx, p)));
+                continue;
+            }
+        };
+        // the log, restricted to exec entries, must be exactly the dispatched prefix, in order, with the signer as sender
+        let upto = first_fail.map(|p| p + 1).unwrap_or(msgs.len());
+        let want: Vec<(String, String)> = msgs[..upto].iter().zip(ks.iter()).map(|(m, k)| (module_of(*k).to_string(), expected_payload(m))).collect();
+        let got: Vec<(String, String)> = log.iter().filter(|e| e.kind == "exec").map(|e| (e.module.to_string(), e.payload.clone())).collect();
+        if got != want {
+            let sig = if got.len() > want.len() { "message-dispatched-after-an-earlier-one-failed" } else { "batch-not-delivered-in-order-exactly-once" };
+            fails.push((sig.into(), format!("{}: modules saw {:?}, expected {:?}", ctx, got, want)));
+            continue;
+        }
+        if log.iter().any(|e| e.kind == "exec" && e.sender.as_deref() != Some(user.as_str())) {
+            fails.push(("module-told-another-sender".into(), format!("{}: log {:?}", ctx, log)));
+            continue;
+        }
+        match (&res, first_fail) {
+            (Ok(len), None) if *len == msgs.len() => {}
+            (Err(_), Some(_)) => {
+                if rawstate::dump(w.app.storage()) != before {
+                    fails.push(("failed-transaction-left-state-changes".into(), ctx.clone()));
+                }
+            }
+            (Ok(len), None) => fails.push(("batch-response-count-differs".into(), format!("{}: {} responses", ctx, len))),
+            (Ok(_), Some(_)) => fails.push(("failing-module-error-swallowed".into(), ctx.clone())),
+            (Err(e), None) => fails.push(("caller-sees-failure-although-module-accepted".into(), format!("{}: {}", ctx, e))),
+        }
+    }
+    fails
+}
